@@ -196,13 +196,13 @@ def malformed_menu():
     m = [('no-tzid', without('TZID')), ('no-dtstart', without('DTSTART')), ('no-offsetfrom', without('TZOFFSETFROM')),
          ('no-offsetto', without('TZOFFSETTO')), ('unclosed-component', without('END:DAYLIGHT')),
          ('unknown-component', '\r\n'.join(good).replace('BEGIN:DAYLIGHT', 'BEGIN:TWILIGHT').replace('END:DAYLIGHT', 'END:TWILIGHT')),
-         ('unknown-property', '\r\n'.join(good).replace('TZNAME:BBB', 'FOO:BAR')),
          ('no-components', 'BEGIN:VTIMEZONE\r\nTZID:X\r\nEND:VTIMEZONE\r\n'),
          ('bad-offset', '\r\n'.join(good).replace('TZOFFSETTO:-0400', 'TZOFFSETTO:-4')),
          ('empty-offset', '\r\n'.join(good).replace('TZOFFSETTO:-0400', 'TZOFFSETTO:')),
          ('mismatched-end', '\r\n'.join(good).replace('END:DAYLIGHT', 'END:STANDARD', 1)),
-         ('dtstart-with-tzid', '\r\n'.join(good).replace('DTSTART:', 'DTSTART;TZID=Foo:', 1)),
-         ('tzid-with-parm', '\r\n'.join(good).replace('TZID:Test/Zone', 'TZID;X=Y:Test/Zone'))]
+         ('dtstart-with-tzid', '\r\n'.join(good).replace('DTSTART:', 'DTSTART;TZID=Foo:', 1))]
+    # not in the menu: an unknown *property* (FOO:BAR) or an extra parameter on TZID -- RFC 5545 allows iana/x-
+    # properties and parameters there, the statement lists neither as malformed, so either answer is acceptable
     return [('malformed', n, t) for n, t in m]
 
 
